@@ -109,6 +109,10 @@ def gen_plan(prop, seed, tier):
     large = tier == "thorough" and not rational and mode == "exact" and profile in ("frac", "vec") and rng.random() < 0.06
     cfg["large"] = large
     cfg["bigden"] = mode == "exact" and profile in ("frac", "vec") and not cfg["shadow"] and not rational and rng.random() < 0.12
+    # control points far from the origin (translation must not change any accept / refuse decision)
+    cfg["offset"] = rng.choice(["1000000", "3000000", "-2500000"]) if (mode == "exact" and profile in ("frac", "vec") and rng.random() < 0.08) else None
+    # control points handed in as row views of ONE parent array, in reversed row order
+    cfg["viewpts"] = profile in ("vec", "fvec") and rng.random() < 0.15
     if large:
         cfg["init"] = gen_curve_spec(rng, mode, rational, 4, rng.randint(3, 6), "frac" if profile == "frac" else "vec",
                                      dyadic=cfg["shadow"], maxnpts=20)
@@ -194,7 +198,8 @@ def gen_plan(prop, seed, tier):
             ctol = rng.choice(["0", "0", "default", "default", "1e-12"])
             op = {"op": which, "t": t, "tol": ctol, "repeat": rng.random() < 0.5}
             if which == "knot_clean" and rng.random() < 0.4:
-                op["nodes"] = [["iknot", rng.randrange(8)] for _ in range(rng.randint(1, 2))]
+                op["nodes"] = [["iknot", rng.randrange(8)] for _ in range(rng.randint(1, 3))]
+                op["form"] = rng.choice(["list", "tuple", "iter", "iter", "ndarray"])
                 if rng.random() < 0.3:
                     op["nodes"].append(["mid", rng.randrange(8), "1/2"])
             if faulty:
@@ -235,8 +240,11 @@ class RefEngine:
         for k, m in zip(spec["knots"], spec["mults"]):
             L += [self.num(M.dec(k), mode)] * m
         pts = []
+        off = M.dec(cfg["offset"]) if cfg.get("offset") else None
         for pt in spec["pts"]:
             c = [M.dec(x) for x in pt]
+            if off is not None:
+                c = [x + off for x in c]
             if profile == "frac":
                 v = c[0]
                 pts.append(float(v) if mode == "float" else (int(v) if v.denominator == 1 else v))
@@ -251,6 +259,9 @@ class RefEngine:
         weights = None
         if "weights" in spec:
             weights = [self.num(M.dec(w), mode) for w in spec["weights"]]
+        if cfg.get("viewpts") and profile in ("vec", "fvec") and len(pts) >= 2:
+            parent = self.np.array([p.tolist() for p in reversed(pts)], dtype=pts[0].dtype)
+            pts = parent[::-1]      # a reversed view: every point is a row view of the same parent, not in row order
         return self.Curve(L, pts, weights)
 
     def point_exact(self, pt):
@@ -1020,10 +1031,11 @@ class RefEngine:
 
         def fn():
             if which == "knot_clean":
+                arg = None if nodes is None else self.as_form(nodes, op.get("form", "list"), False)
                 if tolname == "default":
-                    curve.knot_clean(nodes)
+                    curve.knot_clean(arg)
                 else:
-                    curve.knot_clean(nodes, tol)
+                    curve.knot_clean(arg, tol)
             elif which == "degree_clean":
                 curve.degree_clean() if tolname == "default" else curve.degree_clean(tol)
             else:
